@@ -151,6 +151,9 @@ def _verify_session(case, r, label):
     if r.error:
         raise Violation('%s: session failed with %s: %s at broker time %s' % ((label,) + tuple(r.error)))
     end = cal.ts6(cfg['end'])
+    ev = cal.clock_events(cal.date3(cfg['start']), cal.date3(cfg['end']), False, False)
+    if ev:
+        end = max(end, ev[-1][0])          # a plain-date end still simulates its last day in full
     entry = {a: (None if v is None else cal.ts6(v)) for a, v in cfg['universe']['dates'].items()}
     sig = cfg['alpha']['signal']
     rows = r.allocations
